@@ -43,7 +43,7 @@ func runC03All(c *Ctx) {
 		return strings.HasPrefix(k, "exact-set/") || strings.HasPrefix(k, "gate/known-type") || strings.HasPrefix(k, "gate/lstat") || strings.HasPrefix(k, "gate/is-directory") || strings.HasPrefix(k, "gate/not-symlink") || strings.HasPrefix(k, "entry/") || strings.HasPrefix(k, "anchor")
 	})
 	c.importObls("C08", runC08, "applicable/", func(k string) bool {
-		for _, p := range []string{"oci/anchor", "oci/loop", "oci/no-early-exit", "oci/selection-predicate", "oci/precedence", "blob/by-name", "blob/global", "blob/not-found/"} {
+		for _, p := range []string{"oci/anchor", "oci/loop", "oci/no-early-exit", "oci/selection-predicate", "oci/selection-complete", "oci/precedence", "blob/by-name", "blob/global", "blob/not-found/"} {
 			if strings.HasPrefix(k, p) {
 				return true
 			}
